@@ -10,4 +10,6 @@ cp /repo/go.sum "$VERIF/mc/go.sum"
 for V in A B; do
   ( cd "$VERIF/mc" && "$GO" build -tags verif -overlay "$VERIF/build/ov/$V.json" -o "$VERIF/build/vcheck$V" ./cmd/vcheck )
 done
+# the -race build used by the free-running pass of the scheduler properties
+( cd "$VERIF/mc" && "$GO" build -race -tags verif -overlay "$VERIF/build/ov/B.json" -o "$VERIF/build/vcheckB-race" ./cmd/vcheck )
 echo "setup ok"
